@@ -24,8 +24,8 @@ records related by `OutsRel`, and `match_kind = kind` = the model's kind
 
 Outside: the translators (tools/top2lean.py, nfa2lean.py, dbl2lean.py, rs2lean.py, acc2lean.py) and their
 preludes (meaning of `Vec`, `BTreeMap`, `RefCell`, `IntoIterator` = list, `AsRef<[u8]>` = identity,
-integer conversions, `MatchKind` = its byte), and `build` (the
-position-conversion wrapper around `build_with_values`).  The char-wise counterpart: Props/TieTopC.lean.
+integer conversions, `MatchKind` = its byte).  `build` (the
+position-conversion wrapper around `build_with_values`): Props/TieTopBuild.lean.  The char-wise counterpart: Props/TieTopC.lean.
 -/
 import Daac.Proofs.TieTop
 import Daac.Proofs.TieTopFrame
